@@ -224,7 +224,9 @@ def profile_history(pid, seed, tier):
     if pid == "C13":
         return interleaved_history(seed, nblocks=nb)
     if pid == "C14":
-        return gen.random_history(seed, nblocks=nb, gate=True, heavy_probes=False, name=f"gate-{seed}")
+        if seed % 3 == 0:
+            return gen.random_history(seed, nblocks=nb, gate=True, heavy_probes=False, name=f"gate-rand-{seed}")
+        return gate_history(seed, nblocks=nb)
     if pid == "C15":
         return gen.random_history(seed, nblocks=nb, defects=False, heavy_probes=False, name=f"fees-{seed}")
     return gen.random_history(seed, nblocks=nb, heavy_probes=False, name=f"book-{seed}")
@@ -371,3 +373,78 @@ def sendtx_history(seed, n=120):
             cmds.append({"c": "set_config", "d": rng.choice([{"api": False}, {"api": True}, {"api": True}, {"gate": True}, {"fees": rand_fees(rng)}])})
         cmds += send_tx_cmds(rng, fees if rng.random() < 0.5 else None, 1, nets=[net] * 6 + others)
     return w.scenario(f"sendtx-{net}-{seed}", {"thr": 2, "seed": seed, "fees": fees, "book": False}, cmds)
+
+
+# ---------------------------------------------------------------------------------------------
+# C14: gate
+# ---------------------------------------------------------------------------------------------
+NETS = ["regtest", "mainnet", "testnet", "Regtest", "Mainnet", "Testnet"]
+
+
+def gate_queries(rng, naddr, own_net):
+    out = []
+    for _ in range(rng.randint(3, 7)):
+        net = rng.choice([own_net] * 4 + NETS)
+        k = rng.random()
+        if k < 0.3:
+            out.append(q("utxos", addr=rng.randint(1, naddr), mc=rng.choice([-1, 0, 1]), net=net, mode=rng.choice(["update", "query"])))
+        elif k < 0.55:
+            out.append(q("balance", addr=rng.randint(1, naddr), mc=rng.choice([-1, 0, 1]), net=net, mode=rng.choice(["update", "query"])))
+        elif k < 0.75:
+            out.append(q("headers", s=0, e=-1, net=net))
+        elif k < 0.9:
+            out.append(q("fees", net=net))
+        else:
+            out += send_tx_cmds(rng, None, 1, nets=[net])
+    out.append(q("info"))
+    out.append(q("config"))
+    return out
+
+
+def gate_history(seed, nblocks=14):
+    """Announced headers ahead of the tip, on forks, stale; flags flipped; every endpoint asked."""
+    rng = random.Random(seed)
+    w = World(rng, net="regtest", naddr=3, prefix_pair=False)
+    thr = rng.choice([1, 2, 3])
+    chain = [1]
+    forks = []
+    for i in range(nblocks):
+        chain.append(w.mine(chain[-1], ntx=rng.choice([0, 1])))
+        if rng.random() < 0.25:
+            forks.append(w.mine(rng.choice(chain[-3:]), ntx=0))
+    cmds = [{"c": "tick", "dt": 100000}]
+    pos = 0          # index in chain of the last delivered block (genesis)
+    delivered_forks = set()
+    while pos < len(chain) - 1:
+        k = rng.randint(1, 3)
+        batch = chain[pos + 1: pos + 1 + k]
+        ahead = rng.choice([0, 1, 2, 3, 4, 6])
+        nxt = chain[pos + 1 + len(batch): pos + 1 + len(batch) + ahead]
+        extra = [f for f in forks if f not in delivered_forks and rng.random() < 0.4]
+        hdrs = [item(b) for b in nxt]
+        for f in extra:
+            if rng.random() < 0.5:
+                hdrs.insert(rng.randint(0, len(hdrs)), item(f))          # announced fork header
+            else:
+                batch = batch + [f]
+                delivered_forks.add(f)
+        if rng.random() < 0.15 and hdrs:
+            hdrs.insert(rng.randint(0, len(hdrs)), item(rng.choice(chain), rng.choice(gen.HEADER_DEFECTS)))
+        cmds.append({"c": "offer", "initial": complete(batch, hdrs)})
+        pos += k
+        for _ in range(rng.randint(2, 4)):
+            cmds.append({"c": "hb"})
+            if rng.random() < 0.6:
+                cmds += gate_queries(rng, 3, "regtest")
+            if rng.random() < 0.25:
+                cmds.append({"c": "set_config", "d": rng.choice([{"gate": True}, {"gate": True}, {"gate": False}, {"api": False}, {"api": True},
+                                                               {"api": True}, {"thr": rng.choice([1, 2, 3])}])})
+                cmds += gate_queries(rng, 3, "regtest")
+            if rng.random() < 0.08:
+                cmds.append({"c": "upgrade", "d": {}})
+                cmds += gate_queries(rng, 3, "regtest")
+    cmds.append({"c": "set_config", "d": {"api": True, "gate": True}})
+    for _ in range(4):
+        cmds.append({"c": "hb"})
+        cmds += gate_queries(rng, 3, "regtest")
+    return w.scenario(f"gate-{seed}", {"thr": thr, "seed": seed, "gate": True}, cmds)
